@@ -3,7 +3,7 @@
 From PydapV Require Import Base Paths PathsProofs.
 
 Theorem C16_confined : forall exts fs root path_info,
-  isdir fs root = true -> chars_eqb (last root []) catalog_xml = false ->
+  isdir fs root = true ->
   Forall (inside root) (snd (route exts fs root path_info)).
 Proof. exact confined. Qed.
 Print Assumptions C16_confined.
@@ -44,7 +44,7 @@ Example C16_ex :
   let root := [s2l "srv"; s2l "data"] in
   let fs := [(root, Dir); (root ++ [s2l "t.csv"], File 1); ([s2l "srv"; s2l "data2"], Dir);
              ([s2l "srv"; s2l "data2"; s2l "s.txt"], File 2)] in
-  isdir fs root = true /\ chars_eqb (last root []) catalog_xml = false /\
+  isdir fs root = true /\
   route [s2l ".csv"] fs root (s2l "/../data2/s.txt") = (Forbidden, []) /\
   fst (route [s2l ".csv"] fs root (s2l "/sub/../t.csv.dds")) = Dap (root ++ [s2l "t.csv"]) (s2l ".dds").
 Proof. cbn zeta. repeat split; reflexivity. Qed.
